@@ -437,18 +437,20 @@ func searchStores(run *evid.Run, thorough bool, deadline time.Time) {
 	st := &statsD{seen: map[string]bool{}, cnt: map[string]int64{}, run: run}
 	for _, sc := range searches {
 		sc := sc
+		t0 := time.Now()
 		rep.BFS(run, sc.name, bfs.Config{
 			MaxDepth: sc.depth,
 			Deadline: deadline,
 			New:      func() (bfs.System, error) { return newSysD(sc.p, st) },
 		})
+		run.Set("wall_s_search:"+sc.name, time.Since(t0).Seconds())
 	}
 	for k, v := range st.cnt {
 		run.Set("bfs: "+k, v)
 	}
-	if st.cnt["transitions with a protected file: create"] == 0 || st.cnt["transitions with a protected file: clean"] == 0 ||
+	if run.NViolations() == 0 && (st.cnt["transitions with a protected file: create"] == 0 || st.cnt["transitions with a protected file: clean"] == 0 ||
 		st.cnt["protected entry evicted from the map, file kept on disk"] == 0 || st.cnt["cleanup pass over an idle/expired PROTECTED file"] == 0 ||
-		st.cnt["cleanup removed idle/expired unprotected file"] == 0 {
+		st.cnt["cleanup removed idle/expired unprotected file"] == 0) {
 		run.Fatal(fmt.Errorf("BFS vacuous: %v", st.cnt))
 	}
 }
